@@ -464,10 +464,21 @@ func (e *BSeqEval) evalCall(c *ssa.Call, idx int, env *bsEnv, depth int) *BSeq {
 	if cal != nil {
 		if alg, ok := hashFunc[cal.String()]; ok && len(com.Args) == 1 {
 			in := e.eval(com.Args[0], env, depth+1)
-			if alg == "sha256d" {
-				return &BSeq{Kind: "hash", Alg: "sha256", Parts: []*BSeq{{Kind: "hash", Alg: "sha256", Parts: []*BSeq{in}}}}
+			mk := func(x *BSeq) *BSeq {
+				if alg == "sha256d" {
+					return &BSeq{Kind: "hash", Alg: "sha256", Parts: []*BSeq{{Kind: "hash", Alg: "sha256", Parts: []*BSeq{x}}}}
+				}
+				return &BSeq{Kind: "hash", Alg: alg, Parts: []*BSeq{x}}
 			}
-			return &BSeq{Kind: "hash", Alg: alg, Parts: []*BSeq{in}}
+			if in.Kind == "alt" {
+				// lift the alternatives out of the digest
+				out := &BSeq{Kind: "alt"}
+				for _, a := range in.Alts {
+					out.Alts = append(out.Alts, BAlt{mk(a.B), a.Conds})
+				}
+				return out
+			}
+			return mk(in)
 		}
 		if e.p.InRepo(cal) && len(cal.Blocks) > 0 && depth < 16 {
 			rets := returnsOf(cal)
